@@ -66,4 +66,15 @@ theorem nthNextOk_of (i b n : Nat) (h : i ≤ b) : nthNextOk i b n = true := by
 theorem nthBackNextOk_of (i b n : Nat) (h : i ≤ b) : nthBackNextOk i b n = true := by
   simp [nthBackNextOk]; omega
 
+/-! no `+` of the index arithmetic wraps around the machine word, for *every* argument `n`
+    (also `usize::MAX`), as long as the array length itself fits (`b ≤ N < 2^64`) -/
+theorem nthNextNoOvf_of (i b n : Nat) (h : i ≤ b) (hb : b < 18446744073709551616) : nthNextNoOvf i b n = true := by
+  simp only [nthNextNoOvf, decide_eq_true_eq, Bool.and_eq_true]; omega
+theorem nthDropHiNoOvf_of (i b n : Nat) (h : i ≤ b) (hb : b < 18446744073709551616) : nthDropHiNoOvf i b n = true := by
+  simp only [nthDropHiNoOvf, decide_eq_true_eq, Bool.and_eq_true]; omega
+theorem nextAdvNoOvf_of (i b : Nat) (h : i < b) (hb : b < 18446744073709551616) : nextAdvNoOvf i = true := by
+  simp only [nextAdvNoOvf, decide_eq_true_eq, Bool.and_eq_true]; omega
+theorem foldAdvNoOvf_of (i b : Nat) (h : i < b) (hb : b < 18446744073709551616) : foldAdvNoOvf i = true := by
+  simp only [foldAdvNoOvf, decide_eq_true_eq, Bool.and_eq_true]; omega
+
 end GA.Bridge.Iter
